@@ -135,8 +135,25 @@ template<class CharT, class Traits, class StrT,
 template <class CharT, class Traits>
 std::basic_ostream<CharT, Traits>& operator<<(std::basic_ostream<CharT, Traits>& os,
     str_view<CharT, Traits> v) {
-    // TODO FormattedOutputFunction
-    return os.write(v.data(), v.length());
+    // behaves as a FormattedOutputFunction, like operator<< of std::basic_string_view:
+    // pads to os.width() with os.fill() (on the left unless adjustfield is left), then resets the width
+    const typename std::basic_ostream<CharT, Traits>::sentry ok(os);
+    if (ok) {
+        const std::streamsize len = static_cast<std::streamsize>(v.length());
+        const std::streamsize pad = os.width() > len ? os.width() - len : 0;
+        const bool left = (os.flags() & std::ios_base::adjustfield) == std::ios_base::left;
+        std::basic_streambuf<CharT, Traits>* sb = os.rdbuf();
+        bool good = true;
+        for (std::streamsize i = 0; good && !left && i < pad; ++i)
+            good = !Traits::eq_int_type(sb->sputc(os.fill()), Traits::eof());
+        good = good && sb->sputn(v.data(), len) == len;
+        for (std::streamsize i = 0; good && left && i < pad; ++i)
+            good = !Traits::eq_int_type(sb->sputc(os.fill()), Traits::eof());
+        if (!good)
+            os.setstate(std::ios_base::badbit);
+        os.width(0);
+    }
+    return os;
 }
 
 
